@@ -162,7 +162,7 @@ def _copy_tree(n):
     for f in n._fields:
         if hasattr(n, f):
             setattr(new, f, _copy_tree(getattr(n, f)))
-    for a in ('lineno', 'col_offset', 'end_lineno', 'end_col_offset'):
+    for a in ('lineno', 'col_offset', 'end_lineno', 'end_col_offset', 'awaited', 'is_async', 'js_optional_chain', 'src_file', 'js_function_ref'):
         if hasattr(n, a):
             setattr(new, a, getattr(n, a))
     return new
@@ -400,7 +400,7 @@ def _fcopy(n):
     for f in n._fields:
         if hasattr(n, f):
             setattr(new, f, _fcopy(getattr(n, f)))
-    for a in ('lineno', 'col_offset', 'end_lineno', 'end_col_offset'):
+    for a in ('lineno', 'col_offset', 'end_lineno', 'end_col_offset', 'awaited', 'is_async', 'js_optional_chain', 'src_file', 'js_function_ref'):
         if hasattr(n, a):
             setattr(new, a, getattr(n, a))
     return new
